@@ -84,13 +84,37 @@ def rel(read, p):
     return p
 
 
+def dirarg(read, p):
+    """spelling of a DIRECTORY argument: as rel(), optionally with a trailing slash"""
+    q = rel(read, p)
+    if q and read.get("slash") and not q.endswith("/"):
+        q += "/"
+    return q
+
+
+def noisy(content, seed, cchars, trail=True):
+    """inert noise for a plain-profile file: comment lines at column 0, blank lines, trailing comments"""
+    from .core import Rng
+    r = Rng(seed)
+    out = []
+    for line in content.split("\n"):
+        if line and r.chance(0.3):
+            out.append("%s%s" % (r.pick(cchars), r.pick([" note", "", " key=value [x]", "## heading"])))
+        if trail and line and not line.startswith("[") and r.chance(0.2):
+            line = line + r.pick([" ", "\t", "  "]) + r.pick(cchars) + r.pick([" trailing", "t", ""])
+        out.append(line)
+        if line and r.chance(0.15):
+            out.append("")
+    return "\n".join(out)
+
+
 def option_string(read):
     o = read["opts"]
     items = []
     if o.get("root_prefix"):
         items.append("ROOT_PREFIX=" + ("." if read.get("rel") else "$ROOT"))
     if o.get("parsing_dirs"):
-        items.append("PARSING_DIRS=" + ":".join(rel(read, d) for d in o["parsing_dirs"]))
+        items.append("PARSING_DIRS=" + ":".join(dirarg(read, d) for d in o["parsing_dirs"]))
     if o.get("config_dirs"):
         items.append("CONFIG_DIRS=" + ":".join(o["config_dirs"]))
     for x in o.get("extra", []):
@@ -159,6 +183,11 @@ def gen_layered_world(rng, i, two_layer=None, want_files=True, small=False, allo
     if rng.chance(0.3):
         read["global_dirs"] = rng.pick([[".d"], [".conf.d", ".d"], ["/conf.d", ".d"], [".x.d"], ["/conf.d"]])
     read["cb"] = rng.chance(0.5)
+    # delimiter and comment sets of the read; tree files are rendered to match (plain profile + inert noise)
+    read["delim"] = rng.pick(["=", "=", "=", ":", "= ", ":=", "=\t"])
+    read["comment"] = rng.pick(["#", "#", ";", "#;", ";#"])
+    if rng.chance(0.15):
+        read["slash"] = True       # directory arguments with a trailing slash
     if not norm_suffix(read["suffix"]):
         # without a suffix "<layer>/<name>" is the main file; a postfix like "/conf.d" would make it a directory
         for holder, key in ((read["opts"], "config_dirs"), (read, "global_dirs")):
@@ -230,6 +259,15 @@ def gen_layered_world(rng, i, two_layer=None, want_files=True, small=False, allo
     # drop a path clash: a node that is both a file and the parent of another node
     paths = {n["p"] for n in nodes}
     nodes = [n for n in nodes if not (n["t"] != "d" and any(q.startswith(n["p"] + "/") for q in paths))]
+    dch = read["delim"][0]
+    for n in nodes:
+        if n["t"] == "f":
+            n["delim"] = dch
+            if rng.chance(0.5):
+                n["noise"] = rng.getrandbits(24)
+                n["cchars"] = read["comment"]
+                if "PYTHON_STYLE=1" in read["opts"].get("extra", []):
+                    n["notrail"] = True     # in python style a comment character after a value belongs to the value
     cfg = io_cfg(rng)
     if rng.chance(0.2) and all(l.startswith("$ROOT") for l in layers):
         # relative names: the run's working directory is $ROOT
@@ -244,6 +282,8 @@ def tree_plan(nodes):
         e = {"t": n["t"], "p": n["p"]}
         if n["t"] == "f":
             e["c"] = n["c"] if "c" in n else render_plain([tuple(x) for x in n.get("entries", [])], n.get("delim", "="), n.get("pad", ""))
+            if "c" not in n and n.get("noise") is not None and n.get("entries"):
+                e["c"] = noisy(e["c"], n["noise"], n.get("cchars", "#"), trail=not n.get("notrail"))
         elif n["t"] == "l":
             e["to"] = n["to"]
         for k in ("uid", "gid", "mode"):
@@ -265,9 +305,9 @@ def read_op(read, o=0, cb=None, ep=None, init="null", in_slot=None, faults=None)
     if ep == "readConfig":
         op.update({"op": "readConfig", "in": in_slot, "project": read.get("project"), "usr_subdir": read.get("usr_subdir"), "name": read.get("name")})
     elif ep == "readDirs":
-        op.update({"op": "readDirs", "usr": rel(read, read.get("usr")), "etc": rel(read, read.get("etc")), "name": read.get("name")})
+        op.update({"op": "readDirs", "usr": dirarg(read, read.get("usr")), "etc": dirarg(read, read.get("etc")), "name": read.get("name")})
     elif ep == "readDirsHistory":
-        op.update({"op": "readDirsHistory", "usr": rel(read, read.get("usr")), "etc": rel(read, read.get("etc")), "name": read.get("name")})
+        op.update({"op": "readDirsHistory", "usr": dirarg(read, read.get("usr")), "etc": dirarg(read, read.get("etc")), "name": read.get("name")})
     return op
 
 
